@@ -1,8 +1,10 @@
 import VrlModel.Driver.C18
+import VrlModel.Driver.C27
 
 /-- Line protocol driver: one case per line `op <tab> arg…`, one reply line per case. -/
 def handlers : List (String → List String → Option String) := [
-  Driver.C18.handle
+  Driver.C18.handle,
+  Driver.C27.handle
 ]
 
 def dispatch (op : String) (args : List String) : String :=
